@@ -40,12 +40,12 @@ func runC09(r *R) {
 	l := layout{JSONMode: w.Draw(3)}
 	items := genFile(w, format, 6)
 	for i := range items {
-		if items[i].Req == nil && items[i].HK == "Connection" {
+		if items[i].Req == nil && strings.EqualFold(items[i].HK, "Connection") {
 			items[i].HK = "X-Conn"
 		}
 		if q := items[i].Req; q != nil {
 			for j := range q.Hdr {
-				if q.Hdr[j][0] == "Connection" {
+				if strings.EqualFold(q.Hdr[j][0], "Connection") {
 					q.Hdr[j][0] = "X-Conn"
 				}
 			}
